@@ -437,12 +437,33 @@ def check_swaps(ctx, db):
                 base = 'v%d:%s' % (f.params[0]['d'], f.params[0]['n'])
                 cnt = 'v%d:%s' % (f.params[1]['d'], f.params[1]['n'])
                 okv = lp.visits(ptr, base, {cnt: 1}) is not None and LP.unconditional_in(st, L_)
-            canon[endian] = (gt, okv)
-            ctx.check(ok, 'R-SHAPE', '%s_endian_swap%d/host-guard' % (endian, w), f.loc(), 'returns early when the host already has that byte order (guard `%s`)' % gt)
+            # the routine interpreted (sa/minieval, C integer widths) on a three-element and an empty buffer, once for a little-endian and
+            # once for a big-endian host (the byte-order probe reads the bytes of its string literal in that order): the elements come out
+            # byte-reversed exactly when the host order is not the order asked for, untouched otherwise
+            from .. import minieval as M
+            vals = [int.from_bytes(bytes(range(1 + 16 * k_, 1 + 16 * k_ + w // 8)), 'big') for k_ in range(3)]
+            why = None
+            for host_big in (False, True):
+                for n_ in (3, 0):
+                    buf = list(vals)
+                    mi = M.Mini(db, budget=20000, c_ints=True)
+                    mi.obj_store = True
+                    mi.big_endian_host = host_big
+                    mi.writable.add(id(buf))
+                    try:
+                        mi.run(f.body, {f.params[0]['n']: M.Ptr(buf, 0), f.params[1]['n']: n_})
+                    except M.Return:
+                        pass
+                    except M.OutOfBounds as ex:
+                        why = why or str(ex)
+                        continue
+                    must = (endian == 'big') != host_big
+                    want_ = [int.from_bytes(v_.to_bytes(w // 8, 'big'), 'little') if (must and k_ < n_) else v_ for k_, v_ in enumerate(vals)]
+                    if buf != want_:
+                        why = why or 'on a %s-endian host, %d element(s): %s becomes %s, expected %s' % ('big' if host_big else 'little', n_, ['%x' % v_ for v_ in vals], ['%x' % v_ for v_ in buf], ['%x' % v_ for v_ in want_])
+                    ctx.explored['valuations'] += 1
+            ctx.check(why is None, 'R-SHAPE', '%s_endian_swap%d/host-guard' % (endian, w), f.loc(), 'the elements are byte-reversed exactly when the host does not already have that byte order (interpreted for both host orders)', why)
             ctx.check(okv, 'R-LOOP', '%s_endian_swap%d/all-elements' % (endian, w), f.loc(), 'the loop swaps each of the n elements exactly once')
-        b, l = canon['big'], canon['little']
-        ok = (l[0] == '(!%s)' % b[0] or b[0] == '(!%s)' % l[0])
-        ctx.check(ok, 'R-CLONE', 'swap%d/big~little' % w, '', 'big- and little-endian variants run under opposite host-endianness guards (each is the exact byte reversal of every element, above)', 'guards %s / %s' % (b[0], l[0]))
 
 
 def check_reals(ctx, db):
